@@ -60,6 +60,12 @@ def _build(d, maxlen):
         if d.chance(1, 2) and isinstance(s, str) and L:
             i = d.pick(L)
             t = s[i:i + 1 + d.pick(2)]
+        if d.chance(1, 3):
+            # self-overlapping occurrences
+            unit = d.choice(['a', 'ab', 'aba', 'aa', 'a a'])
+            s = unit * d.int(2, 4) + _text(d, 2)
+            L = len(s)
+            t = (unit * 2)[:d.int(2, len(unit) + 1)]
         args = [t, s] if d.chance(1, 4) else [t, s, pos()]
     elif fn == 'REPLACE':
         args = [s, pos(), pos(), _text(d, 3)]
@@ -118,6 +124,16 @@ def enumerate_cases(tier, shard=0, nshards=1):
                        'mode': 'call'}
             for t in ('a', 'A', ' a', ''):
                 yield {'fn': 'FIND', 'args': [t, s, n], 'mode': 'call'}
+    # self-overlapping search texts: every text of length <= 6 over {a, b}
+    for n in range(1, 7):
+        for tup in itertools.product('ab', repeat=n):
+            i += 1
+            if i % nshards != shard:
+                continue
+            s = ''.join(tup)
+            for t in ('aa', 'aba', 'ab', 'abab', 'bb', 'a'):
+                for p in range(1, n + 2):
+                    yield {'fn': 'FIND', 'args': [t, s, p], 'mode': 'call'}
 
 
 def lit(x):
